@@ -95,4 +95,41 @@ open DiplomatModel.JsStr in
 example : str8Len [0x61, 0xD83D] = 4 ∧ encode [0x61, 0xD83D] = [0x61, 0xEF, 0xBF, 0xBD]
     ∧ encode [0xD83D, 0xDE00] = [0xF0, 0x9F, 0x98, 0x80] := by decide
 
+open DiplomatModel.JsStr in
+/-- **The UTF-16 view of a JS string is exactly its code units**: what Rust reads from the `&[u16]` view over the
+    bytes `DiplomatBuf.str16` wrote is the string, unit for unit — for every string, well-formed or not (no
+    surrogate is touched), of any length. -/
+theorem js_str16_roundtrip (us : List Nat) (h : ∀ u ∈ us, u < 0x10000) : decode16 (encode16 us) = us := by
+  induction us with
+  | nil => rfl
+  | cons u us ih =>
+    have hu := h u (List.mem_cons_self ..)
+    have := ih (fun v hv => h v (List.mem_cons_of_mem _ hv))
+    simp only [encode16, List.flatMap_cons, unitBytes, List.cons_append, List.nil_append, decode16] at *
+    rw [this]; congr 1; omega
+
+open DiplomatModel.JsStr in
+/-- **… the buffer is exactly as large as the view**: the bytes written are twice the view's length, which is the
+    size the buffer was allocated with and is freed with (so the view never reaches past the allocation, and
+    `diplomat_free` gets the layout `diplomat_alloc` got). -/
+theorem js_str16_size_exact (us : List Nat) :
+    (encode16 us).length = str16Bytes us ∧ str16Bytes us = 2 * str16Len us := by
+  refine ⟨?_, by simp [str16Bytes, str16Len, Nat.mul_comm]⟩
+  induction us with
+  | nil => rfl
+  | cons u us ih => simp [encode16, unitBytes, str16Bytes] at *; omega
+
+open DiplomatModel.JsStr in
+/-- every byte written is a byte -/
+theorem js_str16_bytes (us : List Nat) : ∀ b ∈ encode16 us, b < 256 := by
+  intro b hb
+  simp only [encode16, List.mem_flatMap, unitBytes] at hb
+  obtain ⟨u, _, hbu⟩ := hb
+  simp at hbu; omega
+
+open DiplomatModel.JsStr in
+/-- "é" + an unpaired lead surrogate: two units, four bytes, little-endian, the surrogate kept -/
+example : str16Len [0xE9, 0xD83D] = 2 ∧ encode16 [0xE9, 0xD83D] = [0xE9, 0x00, 0x3D, 0xD8]
+    ∧ decode16 (encode16 [0xE9, 0xD83D]) = [0xE9, 0xD83D] := by decide
+
 end DiplomatModel.Props.C16
